@@ -202,6 +202,98 @@ fn observe(bodies: &[&str], reg: &Registration) -> (Obs, Vec<(String, String)>) 
     (Obs { adds, levels }, sources)
 }
 
+/// Source of level k under `names`: as a child of level k-1, or (k == 0 or `as_root`) without an
+/// extends tag.
+fn level_source(bodies: &[&str], names: &[String], k: usize, as_root: bool) -> (String, String) {
+    let src = if k == 0 || as_root { bodies[k].to_string() } else { format!("{{% extends \"{}\" %}}{}", names[k - 1], bodies[k]) };
+    (names[k].clone(), src)
+}
+
+/// Runs a history of add calls on one engine, then observes the levels `from..` by name.
+fn observe_history(names: &[String], from: usize, steps: &[Vec<(String, String)>]) -> Obs {
+    let ctx = tera::Context::new();
+    let mut t = tera::Tera::default();
+    let adds: Vec<Out> = steps.iter().map(|s| engine::add_templates(&mut t, s)).collect();
+    let levels = names[from..]
+        .iter()
+        .map(|name| {
+            if !t.get_template_names().any(|n| n == name) {
+                return None;
+            }
+            Some(LevelObs {
+                render: engine::render(&t, name, &ctx),
+                blocks: PROBES.iter().map(|b| engine::render_block(&t, name, b, &ctx)).collect(),
+            })
+        })
+        .collect();
+    Obs { adds, levels }
+}
+
+/// A chain that reaches its final shape through re-registration: it *grows at the top* (levels
+/// s.. are registered first with level s as a root; then levels 0..s arrive and level s is re-added
+/// as a child), or it is *cut* (the whole chain is registered, then level s is re-added as a root).
+/// Whatever the history, the instance must behave like a fresh one given the final set in one batch.
+fn run_regrowth(bodies: &[&str], name_perms: &[Vec<usize>], acc: &mut Acc) {
+    let l = bodies.len();
+    for np in name_perms {
+        let names: Vec<String> = (0..l).map(|k| format!("t{}", np[k])).collect();
+        let (fresh, fsources) = observe(bodies, &Registration { names: names.clone(), order: (0..l).collect(), one_by_one: false });
+        for s in 1..l {
+            let tail_first: Vec<(String, String)> = (s..l).map(|k| level_source(bodies, &names, k, k == s)).collect();
+            let head_then: Vec<(String, String)> = (0..=s).map(|k| level_source(bodies, &names, k, false)).collect();
+            let full: Vec<(String, String)> = (0..l).map(|k| level_source(bodies, &names, k, false)).collect();
+            let cut: Vec<(String, String)> = vec![level_source(bodies, &names, s, true)];
+            let singles = |v: &[(String, String)]| -> Vec<Vec<(String, String)>> { v.iter().map(|x| vec![x.clone()]).collect() };
+            let mut one_by_one = singles(&tail_first);
+            one_by_one.extend(singles(&head_then));
+            // the sub-chain s.. with level s as a root, fresh: what the cut instance must look like
+            let (fresh_cut, _) = observe(&bodies[s..], &Registration { names: names[s..].to_vec(), order: (0..l - s).collect(), one_by_one: false });
+            let histories: [(&str, Vec<Vec<(String, String)>>, usize, &Obs); 3] = [
+                ("grow-at-top:two-batches", vec![tail_first.clone(), head_then.clone()], 0, &fresh),
+                ("grow-at-top:one-by-one", one_by_one, 0, &fresh),
+                ("cut:full-batch-then-level-as-root", vec![full.clone(), cut.clone()], s, &fresh_cut),
+            ];
+            for (hname, steps, from, want) in histories {
+                let obs = observe_history(&names, from, &steps);
+                let n = 1 + obs.levels.iter().flatten().count() as u64 * (1 + PROBES.len() as u64);
+                let earlier_ok = obs.adds[..obs.adds.len() - 1].iter().all(|o| o.is_ok());
+                let case = || {
+                    json!({
+                        "history": steps.iter().map(|b| b.iter().map(|(n, s)| json!({"name": n, "source": s})).collect::<Vec<_>>()).collect::<Vec<_>>(),
+                        "adds": obs.adds.iter().map(|o| o.show()).collect::<Vec<_>>(),
+                        "final_set_in_one_batch_on_a_fresh_instance": fsources.iter().map(|(n, s)| json!({"name": n, "source": s})).collect::<Vec<_>>(),
+                        "observed_levels": obs.levels.iter().map(|x| x.as_ref().map(|x| (x.render.show(), x.blocks.iter().map(|o| o.show()).collect::<Vec<_>>()))).collect::<Vec<_>>(),
+                        "fresh_levels": want.levels.iter().map(|x| x.as_ref().map(|x| (x.render.show(), x.blocks.iter().map(|o| o.show()).collect::<Vec<_>>()))).collect::<Vec<_>>(),
+                        "calls": "per level render + render_block a, b, n, z",
+                    })
+                };
+                if !earlier_ok || !want.adds[0].is_ok() {
+                    // an intermediate set is not registrable (or the final one is not): nothing to compare
+                    acc.case(false, &format!("regrowth:{hname}:intermediate-or-final-set-refused"));
+                    continue;
+                }
+                if !obs.adds.last().unwrap().is_ok() {
+                    acc.violation(&format!("regrowth:{hname}:final-call-refused"), "the call that completes the chain is refused although a fresh instance accepts the same final set", case);
+                    continue;
+                }
+                let coarse = |o: &Obs| -> Vec<String> {
+                    o.levels.iter().flat_map(|l| match l {
+                        None => vec!["unregistered".to_string()],
+                        Some(l) => std::iter::once(l.render.coarse()).chain(l.blocks.iter().map(|o| o.coarse())).collect(),
+                    }).collect()
+                };
+                if coarse(&obs) == coarse(want) {
+                    acc.evaluations += n;
+                    acc.nontrivial += n;
+                    *acc.outcomes.entry(format!("regrowth:{hname}:same-as-fresh")).or_insert(0) += n;
+                } else {
+                    acc.violation(&format!("regrowth:{hname}:differs-from-fresh"), "a chain completed through re-registration renders differently from a fresh instance holding the same templates", case);
+                }
+            }
+        }
+    }
+}
+
 // ------------------------------------------------------------------------------------ judging
 
 /// What the reference says about one chain (independent of the registration).
@@ -726,6 +818,40 @@ fn main() {
     let words_sub = format!("over the {}-option sub-alphabet {{a, n}}", sub.len());
     for l in 1..=3 {
         orders_family(&mut run, &format!("orders-L{l}"), &subspace, l, &words_sub, permutations(l), false, if thorough && l == 3 { Some(60.0) } else { None });
+    }
+
+    // ---------------------------------------------------------------- chains completed by re-registration
+    {
+        let small = inherit::alphabet_small();
+        let sp4 = Space::from_opts(&small, &small, 4);
+        let mut regrowth_family = |name: &str, space: &Space, l: usize, words: &str, name_perms: Vec<Vec<usize>>| {
+            if !wanted(name) {
+                return;
+            }
+            run.family(
+                Family::new(
+                    name,
+                    space.prefixes(l),
+                    &format!(
+                        "all {} chains of length {l} {words} x {} namings x every split s in 1..{l}: levels s.. registered first with level s as a root, then levels 0..=s (two batches / one call per template); the full chain, then level s re-added as a root. Differential against a fresh one-batch instance",
+                        space.chains(l),
+                        name_perms.len()
+                    ),
+                )
+                .describe(|i| json!({"prefix_option_indices": space.decode_prefix(l, i)})),
+                |item, acc: &mut Acc| {
+                    let prefix = space.decode_prefix(l, item);
+                    for last in 0..space.n(l - 1) as usize {
+                        let mut idx = prefix.clone();
+                        idx.push(last);
+                        let bodies: Vec<&str> = idx.iter().enumerate().map(|(k, &i)| space.src[k][i].as_str()).collect();
+                        run_regrowth(&bodies, &name_perms, acc);
+                    }
+                },
+            );
+        };
+        regrowth_family("regrowth-L3", &subspace, 3, &words_sub, permutations(3));
+        regrowth_family("regrowth-L4", &sp4, 4, &format!("over a {}-option alphabet", small.len()), vec![vec![0, 1, 2, 3], vec![3, 2, 1, 0], vec![2, 0, 3, 1]]);
     }
 
     // ---------------------------------------------------------------- include of a level
